@@ -203,6 +203,30 @@ impl<E> CQueue<E> {
         }
     }
 
+    /// Returns the timestamp of the event that the next call to
+    /// `fetch_next` will return, without removing it from the queue.
+    #[must_use]
+    pub fn peek_time(&self) -> Option<Duration> {
+        if self.is_empty() {
+            return None;
+        }
+
+        if let Some((_, time, _)) = self.zero_event_bucket.front() {
+            return Some(*time);
+        }
+
+        let mut head = self.head;
+        let mut t1 = self.t1;
+        loop {
+            let min = self.buckets[head].front_time();
+            if min <= t1 {
+                return Some(min);
+            }
+            head = (head + 1) % self.n;
+            t1 += self.t;
+        }
+    }
+
     ///
     /// Fetches the smalles event from the calender queue.
     ///
